@@ -419,3 +419,66 @@ Theorem waiting_demux_starves_neighbours :
   drun true 2 [(1, []); (2, [])] ops = [] /\
   drun false 2 [(1, []); (2, [])] ops = [fr 2; fr 2].
 Proof. split; vm_compute; reflexivity. Qed.
+
+(* ---- frames inline on a stream -------------------------------------------------------------------------------- *)
+From RP Require Import Stream StreamProofs CodecProofs.
+
+Lemma read_head_encoded f e rest :
+  frame_ok f -> encode_frame f = Ok e -> read_head (e ++ rest) = Ok (Some (len e)).
+Proof.
+  intros [Ha Hs] He. unfold encode_frame in He.
+  destruct (encodable f) eqn:Henc; [|discriminate].
+  assert (Hbs : e = make_header f ++ f_body f) by (injection He; auto). subst e. clear He.
+  unfold encodable in Henc. apply andb_true_iff in Henc. destruct Henc as [_ Hb]. apply N.leb_le in Hb.
+  pose proof (encode_address_len _ Ha) as Hal.
+  unfold make_header. set (a := encode_address (f_addr f)) in *.
+  rewrite (N.mod_small (len a)) by lia. rewrite (N.mod_small (len (f_body f))) by lia.
+  rewrite <- !app_assoc.
+  set (tail := a ++ f_body f ++ rest).
+  destruct (hdr_parts (f_sid f) (len a) (len (f_body f)) tail) as (H0 & H4 & H8 & H10 & H12 & H12k).
+  cbv zeta in H0, H4, H8, H10, H12, H12k.
+  unfold read_head.
+  assert (Hlen : len (MAGIC ++ u32_be (f_sid f) ++ u16_be (len a) ++ u16_be (len (f_body f)) ++ tail)
+                 = 12 + len a + len (f_body f) + len rest).
+  { unfold len, tail. rewrite !app_length, len_u32, !len_u16. change (length MAGIC) with 4%nat. lia. }
+  rewrite Hlen. destruct (N.ltb_spec (12 + len a + len (f_body f) + len rest) 12); [lia|].
+  rewrite H0, H8, H10. change (bytes_eqb MAGIC MAGIC) with true. cbn [negb].
+  rewrite !u16_roundtrip by lia.
+  do 2 f_equal. unfold len. rewrite !app_length, len_u32, !len_u16. change (length MAGIC) with 4%nat. lia.
+Qed.
+
+Lemma sfr_all_encoded : forall fs bs,
+  Forall frame_ok fs -> encode_all fs = Ok bs -> sfr_all (S (length fs)) bs [] = (fs, Ok tt).
+Proof.
+  induction fs as [|f fs IH]; intros bs Hok He.
+  - cbn in He. injection He as <-. reflexivity.
+  - cbn [encode_all] in He.
+    destruct (encode_frame f) as [e|x|x] eqn:Hf; cbn [obind] in He; try discriminate.
+    destruct (encode_all fs) as [r|x|x] eqn:Hr; cbn [obind] in He; try discriminate.
+    injection He as <-. inversion Hok as [|? ? Hf_ok Hfs_ok]; subst.
+    cbn [length]. change (sfr_all (S (S (length fs))) (e ++ r) []) with
+      (match sfr_read (e ++ r) [] with
+       | (Ok (Some fr), rem', cs') => let '(l, x) := sfr_all (S (length fs)) rem' cs' in (fr :: l, x)
+       | (Ok None, _, _) => ([], Ok tt)
+       | (Err x, _, _) => ([], Err x)
+       | (Panic s, _, _) => ([], Panic s)
+       end).
+    assert (Hrd : sfr_read (e ++ r) [] = (Ok (Some f), r, [])).
+    { cbn [sfr_read]. rewrite (read_head_encoded f e r Hf_ok Hf).
+      assert (Hle : (len e <=? len (e ++ r)) = true) by (apply N.leb_le; unfold len; rewrite app_length; lia).
+      rewrite Hle.
+      replace (N.to_nat (len e)) with (length e) by (unfold len; lia).
+      rewrite firstn_len_app, skipn_len_app.
+      rewrite <- (app_nil_r e) at 1. rewrite (frame_roundtrip f e [] Hf_ok Hf). reflexivity. }
+    rewrite Hrd. rewrite (IH r Hfs_ok eq_refl). reflexivity.
+Qed.
+
+(* Any frames, any segmentation of the stream: the reader delivers exactly the frames that were written, in order,
+   and then a clean end of stream. *)
+Theorem inline_stream_exact fs bs cs :
+  Forall frame_ok fs -> encode_all fs = Ok bs -> wf_chunks cs -> concat cs = bs ->
+  sfr_all (S (length fs)) [] cs = (fs, Ok tt).
+Proof.
+  intros Hok He Hwf Hc. rewrite (frame_reader_stitching (S (length fs)) cs [] Hwf). cbn [app]. rewrite Hc.
+  apply sfr_all_encoded; assumption.
+Qed.
